@@ -8,7 +8,7 @@ From Coq Require Import String Ascii.
 From Coq Require Import List NArith Bool.
 Import ListNotations.
 From L4 Require Import Model.Pattern Proofs.PatternSpec Proofs.Pattern Proofs.PatternMeaning
-     Proofs.PatternParse Proofs.PatternTheorems.
+     Proofs.PatternParse Proofs.PatternTheorems Proofs.PatternExtra.
 Local Open Scope N_scope.
 
 (* The parser inverts the printer: for every well-formed AST (any nesting depth,
@@ -59,6 +59,14 @@ Theorem C09_highlight_text_invariant :
   forall ok ts e c, strip (enc_chunk ok ts e c) = enc_chunk ok ts e (unhl_chunk c).
 Proof. exact highlight_text_invariant. Qed.
 Print Assumptions C09_highlight_text_invariant.
+
+(* ... and every set_style call of a highlight group is closed by exactly one
+   default-style call: scanning the output from any nesting depth k returns to
+   k and never closes a style that was not opened. *)
+Theorem C09_highlight_styles_bracketed :
+  forall ok ts e c k, style_run k (enc_chunk ok ts e c) = Some k.
+Proof. exact styles_bracketed. Qed.
+Print Assumptions C09_highlight_styles_bracketed.
 
 (* Open finding F-C09-empty-spec-lookahead: `{m:}<` is grammatical (wf without
    the strictness condition) but its output is not its meaning. *)
